@@ -768,10 +768,13 @@ def _walker_operands_interpreted(a, cls: str, fields) -> set[str]:
             keep.append(m)
             return m
         if 'Option' in f.annotation:
-            opt = Stub(Q['Option'], exp=marker(), lookaheadlist=[('t',)])
-            owner[id(opt)] = f.name
-            keep.append(opt)
-            attrs[f.name] = [opt]
+            opts = []
+            for _ in range(2):
+                opt = Stub(Q['Option'], exp=marker(), lookaheadlist=[('t',)])
+                owner[id(opt)] = f.name
+                keep.append(opt)
+                opts.append(opt)
+            attrs[f.name] = opts
         elif f.annotation.replace(' ', '').startswith(('list[', 'tuple[', 'Sequence[')):
             attrs[f.name] = [marker(), marker()]
         else:
@@ -967,6 +970,46 @@ def r9_named_value(a, tier):
             rep.fail(fn.qualname, f'wrapper-without-frame:{w}', f'ParseContext.{w} (emitted for {sorted(users)}) neither opens a state frame nor '
                      f'calls a primitive after the block: after `with ctx.{w}(): a b` state.last_node is the value of b, the model\'s value of '
                      f'the construct is [a, b]; a name around it binds different values in the two back-ends', fn.loc)
+    # (A2) the wrapper emitted for each binding class binds the way the model class does: single vs list, name vs override key
+    want_kind = {'Named': ('nameset', 'name'), 'NamedList': ('nameadd', 'name'), 'Override': ('nameset', 'override'), 'OverrideList': ('nameadd', 'override')}
+    for node in boxes:
+        short = node._cls.split('.')[-1]
+        if short not in want_kind:
+            continue
+        lines = _emit(a, node)
+        m_ = re.search(r'with ctx\.(\w+)\(([^)]*)\)', lines[0]) if lines else None
+        w = m_.group(1) if m_ else None
+        fn = a.ct.lookup(CTX, w) if w else None
+        got_kind = None
+        if fn is not None:
+            binds = [c for c in _after_yield_calls(fn) if isinstance(c.func, ast.Attribute) and c.func.attr in ('nameset', 'nameadd') and 'state' in norm(c.func.value)]
+            if len(binds) == 1:
+                arg = binds[0].args[0] if binds[0].args else None
+                got_kind = (binds[0].func.attr, 'name' if isinstance(arg, ast.Name) and arg.id in fn.params else 'override')
+        passes_name = bool(m_) and (("'n'" in m_.group(2)) == (want_kind[short][1] == 'name'))
+        ok = got_kind == want_kind[short] and passes_name
+        rep.add({'binding_class': short, 'emitted': lines[0] if lines else None, 'wrapper_binds': got_kind, 'model_binds': want_kind[short], 'ok': ok})
+        if not ok:
+            wfn = _find_walker(a, GEN, node._cls).fn
+            rep.fail(wfn.qualname, f'binding-kind:{short}', f'for {short} the generator emits `{lines[0] if lines else ""}`, whose wrapper binds as {got_kind}; the model class binds as '
+                     f'{want_kind[short]} (single value vs list, the given name vs the override key)', wfn.loc)
+    # (A3) a sequence declares the keys of its named elements before it parses (names that do not match are None / [])
+    seqnode = Stub(Q['Sequence'], sequence=[T(), T()], defines_single=['k', 'x'], defines_list=['l'])
+    lines = _emit(a, seqnode)
+    decl = next((ln for ln in lines if 'define(' in ln), None)
+    okd = False
+    if decl:
+        try:
+            call = ast.parse(decl.strip()).body[0].value
+            vals = [ast.literal_eval(x) for x in call.args]
+            okd = len(vals) == 2 and sorted(vals[0]) == ['k', 'x'] and sorted(vals[1]) == ['l'] and lines.index(decl) == 0
+        except Exception:  # noqa: BLE001
+            okd = False
+    rep.add({'sequence_defining': {'single': ['k', 'x'], 'list': ['l']}, 'emitted_first': lines[0] if lines else None, 'ok': okd})
+    if not okd:
+        wfn = _find_walker(a, GEN, Q['Sequence']).fn
+        rep.fail(wfn.qualname, 'sequence-defines', f'for a sequence defining k, x (single) and l (list) the generator emits {lines[:2]}; required first: '
+                 f'ctx.define([k, x], [l]) - without it a name that does not match is missing from the AST instead of None / []', wfn.loc)
     # (C) leaf primitives: returned value == last_node
     from ..modelinterp import Recorder as _Rec
     for pname in ('void', 'empty', 'dot', 'token', 'pattern'):
